@@ -55,7 +55,8 @@ def backend():
 
 def interpreter():
     from klongpy import KlongInterpreter
-    return KlongInterpreter(backend=BACKEND_NAME)
+    from vt import world
+    return world.hoist(KlongInterpreter(backend=BACKEND_NAME))
 
 
 def arr(x):
